@@ -67,6 +67,7 @@ def run(ctx):
     R3 = rep.rule('C07.R3', 'writer region: swap, reload-id increment and global flag store lie inside the write guard, in that order; guard dropped on every exit', floor=5)
     R4 = rep.rule('C07.R4', 'one writer: swap_any is called only from EntryStorage::write', floor=1)
     R5 = rep.rule('C07.R5', 'values change only inside hot_reload unless enhance_hot_reloading(&\'static self) was called; hot_reload waits for its answer', floor=9)
+    R6 = rep.rule('C07.R6', 'the closures of AssetReadGuard::map / try_map are higher-ranked over the borrow: the mapped reference cannot escape the guard', floor=2)
     rep.assumptions += ['user code does not hold an AssetReadGuard across hot_reload (documented precondition of the crate)']
     for cfg, F in ctx.cfgs():
         hr = 'hot-reloading' in ctx.cfg_features[cfg]
@@ -78,6 +79,8 @@ def run(ctx):
             for r in (R2, R3, R4, R5):
                 r.finish_cfg(cfg)
         R1.finish_cfg(cfg)
+        r6(R6, cfg, F)
+        R6.finish_cfg(cfg)
 
 
 def read_guard_call(F, b):
@@ -390,3 +393,22 @@ def r5(R5, cfg, F):
         a = th.access_path(nt[0].args[1])
         ok = ok and bool(a) and 'as:Ptr' in a and a[-1] == '2'
     R5.check(ok, cfg, th.path, 'answers-after-update_if_local', 'the reloader must answer the token of the Ptr message after update_if_local returned', ul[0].loc() if ul else th.loc())
+
+
+def r6(R6, cfg, F):
+    """`F: FnOnce(&T) -> &U` must be `for<'x> FnOnce(&'x T) -> &'x U`: with the guard's own lifetime 'a instead, safe code
+    could store the closure argument, drop the guard and keep a lock-free reference to a value that reloads rewrite."""
+    for fn, out_rx in (('map', r"^for<'(\w+)> <F as std::ops::FnOnce<\(&'\1 T,\)>>::Output == &'\1 U$"),
+                       ('try_map', r"^for<'(\w+)> <F as std::ops::FnOnce<\(&'\1 T,\)>>::Output == std::option::Option<&'\1 U>$")):
+        p = "entry::AssetReadGuard::<'a, T>::" + fn
+        f = F.fns.get(p)
+        if not f:
+            R6.missing(cfg, p)
+            continue
+        preds = f.get('predicates', [])
+        hr_in = [x for x in preds if re.match(r"^for<'(\w+)> F: FnOnce\(&'\1 T\)$", x)]
+        hr_out = [x for x in preds if re.match(out_rx, x)]
+        plain = [x for x in preds if re.search(r'F: .*FnOnce|F as std::ops::FnOnce', x) and not x.startswith('for<')]
+        R6.check(len(hr_in) == 1 and len(hr_out) == 1 and not plain, cfg, p, 'closure-bound-is-higher-ranked',
+                 'the closure of AssetReadGuard::%s must be `for<\'x> FnOnce(&\'x T) -> ...&\'x U`; its bounds are %s: the mapped reference can outlive the guard' % (fn, [x for x in preds if 'F' in x]),
+                 '%s:%s' % (f['file'], f['line']))
